@@ -113,7 +113,7 @@ func (m *refModel) enumsOf(p *packages.Package) {
 		if !ok {
 			continue
 		}
-		named, ok := c.Type().(*types.Named)
+		named, ok := types.Unalias(c.Type()).(*types.Named) // a constant may be typed through an alias of the enum
 		if !ok {
 			continue
 		}
@@ -168,7 +168,7 @@ func (m *refModel) enumsOf(p *packages.Package) {
 			}
 			// no other constant of this type in the package (e.g. opted out)
 			for _, name := range scope.Names() {
-				if c, ok := scope.Lookup(name).(*types.Const); ok && c.Type() == types.Type(named) {
+				if c, ok := scope.Lookup(name).(*types.Const); ok && types.Unalias(c.Type()) == types.Type(named) {
 					found := false
 					for _, mb := range members {
 						if mb.Const == c {
